@@ -382,6 +382,7 @@ pub fn execute(plan: &ClientPlan) -> ClientRun {
                 {
                     let mut p = pt.lock().unwrap();
                     p.q = OutcomeQueues::default();
+                    p.last_card = None;
                     match op {
                         OpSpec::Begin { res, .. } => p.q.reservation.push_back(res.clone()),
                         OpSpec::Commit { rev, cleanup, .. } => {
@@ -521,6 +522,8 @@ impl ClientRun {
                 FaultKind::Junk => "fault.junk",
                 FaultKind::Silence => "fault.silence",
                 FaultKind::WrongSerial => "fault.wrong_serial",
+                FaultKind::EpipeAfter => "fault.epipe_after",
+                FaultKind::StallMid(_) => "fault.stall_mid_frame",
             });
         }
         stats.add("probe.duplicate_reservation", pt.duplicate_reservations);
